@@ -63,6 +63,11 @@ void Variable::set(Value *_data, bool copy) {
         ref->set(_data, copy);
         return;
     }
+    if (copy && data != nullptr && type.type == DataType::COMPOSITE) {
+        // copy into the existing record so that its fields (and anything referring to them) stay alive
+        *((PSC::Composite*) data) = *((const PSC::Composite*) _data);
+        return;
+    }
     if (data != nullptr) delete data;
     if (!copy) {
         data = _data;
